@@ -58,8 +58,7 @@ CLAIMED.update({
  "C07": {
   "engine": "ledgerh+CheckLedger",
   "technique": "Coq: truncation permutes the vertex collection (Permutation proof over the one-pass ancestor split), by-hash reads are preserved, invariants survive, only confirmed vertices are checkpointed; ancestors_spec ties the walk to the declarative ancestor relation; trace acceptor with injected >=1010-vertex states; before/after monitors on the real ledger",
-  "text": "C07_vertex_lookup_preserved / C07_transaction_lookup_preserved (every by-hash read identical after truncation, nothing new), C07_collection_permuted + C07_invariants_survive (uniqueness, index exactness, graph well-formedness and hence all C03 replay theorems hold across any number of truncations), C07_checkpoints_confirmed_only, C07_short_history_refused, C07_checkpoint_funds_canonical. The balance-preservation and funds-equal-net-flow statements are decided on the implementation by monitors over real truncations (balances of all wallets, encoded content of every vertex and transaction read back by hash, re-submission results, checkpoint funds vs math/big net flow of the stored vertices, follow-up spends of exactly-everything / one-unit-more) and by the model correspondence of the truncate step; their Coq proofs are partial (see DESIGN 6 C07).",
-  "note": LEDGER_NOTE + " The cut is a hint (any ancestor of a tip with >= truncateDiff ancestors); which vertex BFS reaches as the 1000th is decided by Go map order.", "design_ref": "6 C07",
+  "text": "C07_balance_preserved / C07_reported_balance_unchanged (for every surviving vertex that is the cut or descends from it and every address: the exact reference sum - hence the number the query reports - is the same before and after, via the one-pass-walk-on-the-stripped-graph lemma and the permutation 'removed part of the history = moved set'), C07_validation_preserved (the C01 cover test gives the same verdict), C07_checkpoint_adds_net_flow_of_moved + C07_moved_counted_once + C07_checkpoint_is_net_flow (for every operation sequence with any number of truncations, checkpointed funds = net flow of the checkpointed vertices, each counted once; other operations touch neither side), C07_vertex_lookup_preserved / C07_transaction_lookup_preserved, C07_collection_permuted + C07_invariants_survive (so all C03 replay theorems hold across truncations), C07_checkpoints_confirmed_only, C07_short_history_refused, C07_checkpoint_funds_canonical. Side conditions of the balance/funds theorems: address not one of the 32-character strings the reload skips, sums representable, wallet not overdrawn below the cut (else KNOWN-FINDING). Monitors evaluate the same statements on real truncations, incl. repeated truncation with a wallet drained to exactly zero in between.", "note": LEDGER_NOTE + " The cut is a hint (any ancestor of a tip with >= truncateDiff ancestors); which vertex BFS reaches as the 1000th is decided by Go map order.", "design_ref": "6 C07",
  },
  "C13": {
   "engine": "ledgerh+CheckLedger",
